@@ -56,7 +56,7 @@ T0 = 0  # abs times are logged in microseconds since the harness' t0
 def stream(container, tracks, versions, base, step, per=1, **kw):
     s = {"container": container, "tracks": tracks, "trackIds": kw.pop("trackIds", []), "versions": versions, "base": base, "step": step,
          "perSeg": per, "ptsOff": [], "frags": 0, "byteRange": False, "noStart": False, "query": "", "absUrl": False, "dateTime": False,
-         "dtJump": 0, "name": "", "lang": "", "default": False, "segDurMs": 20 * per, "ll": False, "canSkip": False}
+         "dtJump": 0, "name": "", "lang": "", "default": False, "segDurMs": 20 * per, "ll": False, "canSkip": False, "uriStyle": ""}
     s.update(kw)
     return s
 
@@ -67,7 +67,7 @@ def ver(ms, n, end=False, typ="", hint=0, wait=0):
 
 def scenario(entry, streams, tag, **kw):
     sc = {"entry": entry, "streams": streams, "faults": [], "closeReq": -1, "closeWhen": "", "closeTwice": False, "onTracksErr": False,
-          "blockData": 0, "closeData": 0, "closeAtMs": 0, "slowData": 0, "maxMs": 0, "tag": tag, "mut": "", "mutReq": 0,
+          "dirs": False, "blockData": 0, "closeData": 0, "closeAtMs": 0, "slowData": 0, "maxMs": 0, "tag": tag, "mut": "", "mutReq": 0,
           "mutS": 0, "mutKind": "", "mutNth": 0}
     sc.update(kw)
     return sc
@@ -140,7 +140,12 @@ def fetch_scenarios(hists, rnd, limit):
                     query=rnd.choice(["", "", "tok=1"]), absUrl=rnd.random() < 0.3, byteRange=rnd.random() < 0.3)
         if st["byteRange"]:
             st["noStart"] = rnd.random() < 0.6
-        scs.append(scenario("media", [st], "fetch%d" % k))
+        dirs = rnd.random() < 0.4
+        if dirs:
+            # playlists and media in different directories: relative ("../media/x", "m/x"), absolute-path and absolute-URL references
+            st["absUrl"] = False
+            st["uriStyle"] = rnd.choice(["rel", "abspath", "absurl", "sub"])
+        scs.append(scenario("media", [st], "fetch%d" % k, dirs=dirs))
     # leading + audio rendition evolving independently
     for i in range(0, min(len(order), limit) - 1, 7):
         a, b = order[i], order[i + 1]
@@ -153,7 +158,10 @@ def fetch_scenarios(hists, rnd, limit):
         s1 = stream(container, [atr], [ver(v["ms"], v["n"], v["end"], typ) for v in b["versions"]],
                     [900000 if container == "ts" else 480000], [step_of(atr, container)], 1, name="eng", lang="en", default=True,
                     query=rnd.choice(["", "tok=1"]))
-        scs.append(scenario("multi", [s0, s1], "fetchmv%d" % i))
+        dirs = rnd.random() < 0.5
+        if dirs:
+            s0["uriStyle"], s1["uriStyle"] = rnd.choice(["rel", "abspath", "absurl", "sub"]), rnd.choice(["rel", "abspath", "absurl", "sub"])
+        scs.append(scenario("multi", [s0, s1], "fetchmv%d" % i, dirs=dirs))
     # Low-Latency: hint of each successive playlist, _HLS_skip=YES iff CAN-SKIP-UNTIL
     for i in range(6 if limit < 200 else 200):
         h0 = rnd.randint(3, 9) * 2 + rnd.choice([1, 2])
@@ -168,7 +176,10 @@ def fetch_scenarios(hists, rnd, limit):
         tr = [H264] + ([opus()] if rnd.random() < 0.5 else [])
         st = stream("fmp4", tr, vs, [900000 if t["codec"] == "h264" else 480000 for t in tr], [step_of(t, "fmp4") for t in tr], 2,
                     ll=True, canSkip=rnd.random() < 0.5, query=rnd.choice(["", "tok=1"]), segDurMs=40, dateTime=rnd.random() < 0.5)
-        scs.append(scenario("media", [st], "ll%d" % i))
+        dirs = rnd.random() < 0.4
+        if dirs:
+            st["uriStyle"] = rnd.choice(["rel", "abspath", "absurl", "sub"])
+        scs.append(scenario("media", [st], "ll%d" % i, dirs=dirs))
     return scs
 
 
